@@ -36,8 +36,35 @@ class ConcreteCtx:
         self.counters[base] = n + 1
         return base if n == 0 else '%s!%d' % (base, n)
 
-    def get(self, name, default):
+    def get(self, name, default, n=None):
+        """value of constant `name` in the model; n: the value is an index below n"""
         return self.model.get(name, default)
+
+
+class RandomCtx(ConcreteCtx):
+    """Concrete values chosen at random (seeded): used for the CPython cross-check of the interpreter."""
+
+    def __init__(self, rnd):
+        ConcreteCtx.__init__(self, {})
+        self.rnd = rnd
+
+    def get(self, name, default, n=None):
+        if name in self.model:
+            return self.model[name]
+        r = self.rnd
+        if n is not None:
+            v = r.randrange(n)
+        elif isinstance(default, bool):
+            v = r.random() < 0.5
+        elif isinstance(default, int):
+            v = r.choice([-2, -1, 0, 1, 2, 3, 5, 10]) if default == 0 else default + r.choice([0, 1, 2, 7])
+        elif isinstance(default, str):
+            v = ''.join(r.choice(['a', 'b', ' ', '\n', '@', '[', ']', "'", '"', '#', 'é'])
+                        for _ in range(r.randrange(0, 6)))
+        else:
+            v = default
+        self.model[name] = v
+        return v
 
 
 class Ty:
@@ -142,7 +169,7 @@ class OneOf(Ty):
     def concrete(self, cx, name):
         if len(self.values) == 1:
             return self.values[0]
-        return self.values[cx.get(cx.fresh_name(name + '.idx'), 0)]
+        return self.values[cx.get(cx.fresh_name(name + '.idx'), 0, len(self.values))]
 
 
 def EnumOf(cls, *extra):
@@ -162,7 +189,7 @@ class Union(Ty):
         return self.alts[i].make(interp, name)
 
     def concrete(self, cx, name):
-        i = cx.get(cx.fresh_name(name + '.alt'), 0)
+        i = cx.get(cx.fresh_name(name + '.alt'), 0, len(self.alts))
         return self.alts[i].concrete(cx, name)
 
 
@@ -251,6 +278,13 @@ class ListOf(Ty):
 
         return SList(n, elem, uid)
 
+    def concrete(self, cx, name):
+        n = cx.get(cx.fresh_name(name + '.len'), self.min_len, None)
+        if isinstance(cx, RandomCtx):
+            n = self.min_len + abs(n) % 4
+        n = max(self.min_len, min(int(n), 6))
+        return [self.elem.concrete(cx, '%s[%d]' % (name, i)) for i in range(n)]
+
 
 class MListOf(Ty):
     """A *mutable* list of symbolic length whose elements are ints / bools / strings or tuples of these
@@ -270,6 +304,9 @@ class MListOf(Ty):
         interp.st.assume(n >= 0)
         m.length = n
         return m
+
+    def concrete(self, cx, name):
+        return ListOf(self.elem).concrete(cx, name)
 
 
 def _mshape(ty):
@@ -295,6 +332,9 @@ class IterOf(Ty):
         from .models import SIter
         return SIter(ListOf(self.elem).make(interp, name), 0)
 
+    def concrete(self, cx, name):
+        return iter(ListOf(self.elem).concrete(cx, name))
+
 
 class FixedList(Ty):
     def __init__(self, *elems, as_tuple=False):
@@ -316,16 +356,48 @@ class Opaq(Ty):
     def make(self, interp, name):
         return OpaqueVal(interp.st.fresh_name(name))
 
+    def concrete(self, cx, name):
+        return _Anything(cx.fresh_name(name))
+
+
+class _Anything:
+    def __init__(self, name):
+        self.name = name
+
+    def __repr__(self):
+        return '<any %s>' % self.name
+
 
 Any_ = Opaq()
 
 
 class Custom(Ty):
+    def __init__(self, fn, concrete=None):
+        self.fn = fn
+        self.concrete_fn = concrete
+
+    def make(self, interp, name):
+        return self.fn(interp, name)
+
+    def concrete(self, cx, name):
+        if self.concrete_fn is None:
+            raise NoConcrete('Custom shape without a concrete reconstruction')
+        return self.concrete_fn(cx, name)
+
+
+class Dependent(Ty):
+    """Shape of a result (or of a raised exception) that is built from the arguments of the call:
+    ``fn(interp, name, env)`` with ``env`` = parameters and ghosts by name.  Only meaningful where a
+    contract is *used* (call sites); e.g. a result object that carries one of the arguments."""
+
     def __init__(self, fn):
         self.fn = fn
 
     def make(self, interp, name):
-        return self.fn(interp, name)
+        raise Unsupported('Dependent shape outside a call site')
+
+    def make_for_call(self, interp, name, env):
+        return self.fn(interp, name, env)
 
 
 def make_indexed(interp, ty, uid, idx_term):
@@ -354,12 +426,58 @@ def make_indexed(interp, ty, uid, idx_term):
     if isinstance(ty, FixedList):
         vals = [make_indexed(interp, t, '%s.%d' % (uid, i), idx_term) for i, t in enumerate(ty.elems)]
         return tuple(vals) if ty.as_tuple else vals
+    return indexed_value(interp, ty, uid + '[]', (idx_term,))
+
+
+def indexed_value(interp, ty, base, idx):
+    """A value of shape ``ty`` that is a function of the index tuple ``idx`` (element of a symbolic-length
+    sequence, or a component of such an element): scalars are applications of uninterpreted functions
+    named after ``base``, real instances (`Inst`) are built from indexed fields."""
+    st = interp.st
+    sorts = [z3.IntSort()] * len(idx)
+    if isinstance(ty, _Int):
+        t = z3.Function(base, *(sorts + [z3.IntSort()]))(*idx)
+        if ty.lo is not None:
+            st.assume(t >= ty.lo)
+        if ty.hi is not None:
+            st.assume(t <= ty.hi)
+        return SInt(t)
+    if isinstance(ty, _Bool):
+        return SBool(z3.Function(base, *(sorts + [z3.BoolSort()]))(*idx))
+    if isinstance(ty, _Str):
+        return SStr(z3.Function(base, *(sorts + [z3.StringSort()]))(*idx))
     if isinstance(ty, Opt):
-        f = z3.Function(uid + '[].is_none', z3.IntSort(), z3.BoolSort())
-        return SOpt(f(idx_term), make_indexed(interp, ty.inner, uid, idx_term))
+        isn = z3.Function(base + '.is_none', *(sorts + [z3.BoolSort()]))(*idx)
+        return SOpt(isn, indexed_value(interp, ty.inner, base, idx))
+    if isinstance(ty, Iface) and not isinstance(ty, Involution):
+        iface = ty.iface() if isinstance(ty.iface, types.FunctionType) else ty.iface
+        return new_opaque(interp, iface, base, index=idx)
+    if isinstance(ty, OneOf):
+        if len(ty.values) == 1:
+            return ty.values[0]
+        t = z3.Function(base + '.idx', *(sorts + [z3.IntSort()]))(*idx)
+        st.assume(z3.And(t >= 0, t < len(ty.values)))
+        return SChoice(t, ty.values)
     if isinstance(ty, Const):
         return ty.value
-    raise Unsupported('indexed element of type %r' % (ty,))
+    if isinstance(ty, Opaq):
+        return OpaqueVal('%s[%s]' % (base, ', '.join(str(z3.simplify(i)) for i in idx)))
+    if isinstance(ty, Inst):
+        cls = ty.cls
+        if ty.tuple_items is not None:
+            obj = tuple.__new__(cls, [indexed_value(interp, t, '%s[%d]' % (base, i), idx)
+                                      for i, t in enumerate(ty.tuple_items)])
+        elif issubclass(cls, BaseException):
+            obj = cls.__new__(cls)
+        else:
+            obj = object.__new__(cls)
+        for k, t in ty.fields.items():
+            v = indexed_value(interp, t, '%s.%s' % (base, k), idx) if isinstance(t, Ty) else t
+            object.__setattr__(obj, k, v)
+        if ty.invariant is not None:
+            st.assume(interp.truth(interp.call(ty.invariant, [obj], {})))
+        return obj
+    raise Unsupported('indexed value of type %r' % (ty,))
 
 
 # ============================================================================ interfaces (opaque objects)
@@ -474,10 +592,7 @@ def _indexed_scalar(interp, o, name, ty):
         return SChoice(t, ty.values) if len(ty.values) > 1 else ty.values[0]
     if isinstance(ty, Const):
         return ty.value
-    if isinstance(ty, Opaq):
-        # a value nothing is done with: identified by owner, attribute and index term (as in make_indexed)
-        return OpaqueVal('%s[%s]' % (base, ', '.join(str(z3.simplify(i)) for i in idx)))
-    raise Unsupported('indexed attribute of type %r' % (ty,))
+    return indexed_value(interp, ty, base, idx)
 
 
 class Registry:
